@@ -8,14 +8,31 @@ RULE = ("logical documents rendered as binary token streams (keys as token ids /
         "rgb blocks, ghost {} objects, duplicate keys) x resolver {HashMap, BasicTokenResolver::from_text_lines; all / some / no ids "
         "known} x {Error, Stringify, Ignore} x shapes (full, partial, token-attribute structs, typed hints incl. wrong ones, any) x "
         "paths {deserialize_tape, deserialize_slice, deserialize_reader with buffers {longest token.., 64.., 32 KiB} and schedules "
-        "{fill, 1 byte, chunks}, BinaryFlavor::deserialize_slice/reader}.  non-trivial = a value came out")
+        "{fill, 1 byte, chunks}, BinaryFlavor::deserialize_slice/reader}.  non-trivial = a value came out.  "
+        # [spec_tie]
+        "spec_tie: every generated (document, configuration, shape) of the streams paths / i64 / rgb-any is converted to a Coq BinDoc document "
+        "(props/spectie.py; all of them are inside the BinDoc grammar, ghosts included) and the EXTRACTED Coq specification is run on it: "
+        "BinDoc.enc_doc must reproduce dedoc.render_bin byte for byte, wf_doc / tape_ok_doc must hold, BinDoc.spec_value (at the entry points' "
+        "fuel) must equal dedoc.expected and every path's value, flat_doc must equal the implementation's binary tape; plus hand-made pairs "
+        "from corpus/C04/spec_tie.case (I32 keys, the three strategies, both flavors, rgb, genuine errors)")
 TRUSTED = ["serde's primitive visitors (integer range checks, int->float casts) are the real ones and are mirrored in dedoc.expected_scalar_bin",
-           "flavor arithmetic (eu4: i32/1000 in f32, Q49.15 rounded to 5 digits; raw: IEEE bits) is recomputed exactly in Python (fractions)"]
+           "flavor arithmetic (eu4: i32/1000 in f32, Q49.15 rounded to 5 digits; raw: IEEE bits) is recomputed exactly in Python (fractions)",
+           # [spec_tie]
+           "spec_tie: dedoc.expected / dedoc.render_bin are no longer trusted on their own: on every run they are compared with the extracted "
+           "BinDoc.spec_of / BinDoc.enc_doc (the definitions Props/C04_walk.v is stated over), and the implementation is compared with spec_of "
+           "directly.  Still Python-only: the conversion dedoc document -> BinDoc (props/spectie.py to_bindoc; checked by the byte-for-byte "
+           "encoding comparison), the generators, py_lines_resolver (BasicTokenResolver::from_text_lines), the constant expected value of the "
+           "skip_wide_payloads stream.  The configuration (resolver table, strategy, flavor decoders, float casts) is the one of the walk models "
+           "(ocaml/fam_bde.ml make_cfg)"]
 ASSUMPTIONS = ["walk_model: the float decoders of the flavor and serde's `as` casts are parameters of the Coq model, implemented natively in ocaml/fam_bde.ml",
                "container shapes only on containers of the same kind, `any` only on scalars and rgb; root target is a struct or map",
                "a ghost {} is never the first entry of a document/container: the tape parser deliberately rejects/reads it as an array there while "
                "the other two paths skip it (reported as an observation, not generated)",
-               "I64 tokens make the tape parser fail (C03 finding B); they are generated only in the stream `i64` whose failures carry key B-tape-i64"]
+               "I64 tokens make the tape parser fail (C03 finding B); they are generated only in the stream `i64` whose failures carry key B-tape-i64",
+               # [spec_tie]
+               "spec_tie scope: on these streams BinDoc.spec_value and dedoc.expected have the same scope (the generator only keeps shapes that "
+               "dedoc.expected fits); an UNFIT answer of the Coq specification is reported as a disagreement.  The empty `{ }` is the empty array "
+               "in BinDoc (same bytes); a map / struct target on it is inside BinDoc.spec_value's scope (unlike the text side)"]
 
 PATHS = ["tape", "slice", "fslice"]
 
@@ -294,6 +311,14 @@ def run(ctx):
         o = impl[base + k]
         if o != exp:
             ctx.fail("value-" + p.split(":")[0], "%s path returns %s, the encoded values are %s" % (p, o[:200], exp[:200]), [cases[k]], [o], exp)
+    # ---- [spec_tie] BEGIN: the Coq specification (BinDoc.spec_value at the entry points' fuel, BinDoc.enc_doc, flat_doc,
+    # wf_doc, tape_ok_doc -- what Props/C04_walk.v is stated over) extracted and run on the documents, configurations and
+    # shapes generated above; see props/spectie.py.  (a) D.render_bin = enc_doc of the converted document, byte for
+    # byte; (b) D.expected = spec_value; (c) every path's value above = spec_value; plus: the implementation's binary
+    # tape of the rendering = flat_doc.
+    from props import spectie
+    spectie.run_bin(ctx, cases, meta, impl, base, ctx.scale(4000, 30000), corpus=True)
+    # ---- [spec_tie] END
 
     # I64 tokens (C03 finding B shows through the tape path)
     cases, meta = gen_cases(ctx, ctx.scale(250, 2000), i64=True, rgb_any=False, tag="i64")
@@ -310,6 +335,7 @@ def run(ctx):
                     ctx.fail("B-tape-i64", "tape path fails on a document with an I64 token: %s, other paths / encoded values: %s" % (o[:80], exp[:80]), [cases[k]], [o], exp)
             else:
                 ctx.fail("value-" + p.split(":")[0], "%s path returns %s, the encoded values are %s" % (p, o[:200], exp[:200]), [cases[k]], [o], exp)
+    spectie.run_bin(ctx, cases, meta, impl, base, ctx.scale(250, 2000), tag="tie_i64")          # [spec_tie] the I64 documents
 
     # rgb into a dynamically shaped target (finding C: the on-demand path has no RGB arm in deserialize_any)
     cases, meta = gen_cases(ctx, ctx.scale(250, 2000), i64=False, rgb_any=True, tag="rgbany")
@@ -325,6 +351,7 @@ def run(ctx):
                     ctx.fail("C-ondemand-rgb-any", "on-demand path on rgb into deserialize_any: %s, tape/stream and the encoded value: %s" % (o[:80], exp[:80]), [cases[k]], [o], exp)
             else:
                 ctx.fail("value-" + p.split(":")[0], "%s path returns %s, the encoded values are %s" % (p, o[:200], exp[:200]), [cases[k]], [o], exp)
+    spectie.run_bin(ctx, cases, meta, impl, base, ctx.scale(250, 2000), tag="tie_rgbany")       # [spec_tie] rgb into `any` targets
 
     # fixed replay of C
     col = D.tok(0x1000) + D.EQ + D.tok(0x243) + D.OPEN + b"".join(D.tok(0x14) + struct.pack("<I", c) for c in (110, 27, 27)) + D.CLOSE
@@ -419,6 +446,6 @@ def search(ctx):
 
 CLAIM = {
     "text": "the three binary deserializers and the BinaryFlavor convenience entry points are run through a runtime-shape serde interpreter on generated binary documents x resolvers x strategies x flavors x shapes x buffer sizes/schedules; each result is compared with an independently computed expected value (hence pairwise equal); Coq: see coverage.theorems",
-    "note": "Props/C04_walk.v: the three deserializer walks are executable Coq models run from the bytes (stream walk_model); each is proved equal to the specification walk over abstract documents (hence pairwise equal) for all configurations, shapes that fit and well-formed documents, the reader for every fitting capacity and fault-free schedule. Props/C04.v keeps the scalar-level laws. Findings N (u16 target on a token-id value) and O (rgb as an array element) are outside the fitting class and are replayed.",
+    "note": "[spec_tie] The specification of the walk theorems (BinDoc.spec_value / enc_doc / flat_doc / wf_doc / tape_ok_doc) is extracted and run on the generated documents: dedoc.render_bin and dedoc.expected are checked against it and every path's value is compared with spec_value directly (stream spec_tie, keys tie-bin-*). Props/C04_walk.v: the three deserializer walks are executable Coq models run from the bytes (stream walk_model); each is proved equal to the specification walk over abstract documents (hence pairwise equal) for all configurations, shapes that fit and well-formed documents, the reader for every fitting capacity and fault-free schedule. Props/C04.v keeps the scalar-level laws. Findings N (u16 target on a token-id value) and O (rgb as an array element) are outside the fitting class and are replayed.",
     "technique": "machine-checked proof in Coq over an executable model + specification oracle on the implementation",
 }
